@@ -3,15 +3,37 @@
 # 1. in the scratch worktree: suite green WITH the change, demo fails WITH / passes WITHOUT
 # 2. copy patch.diff, demo.py, notes.md to /verif/seeded/<ID>/
 # 3. apply to /repo, run ./check <ID> (quick), undo straight afterwards
-ID=$1; WT=${2:-/tmp/wt/$ID}; OUT=/verif/seeded/$ID; mkdir -p $OUT
+# RECHECK=1 tools/try_seeded.sh <ID> - <outname> : only re-run the check against the stored patch (history kept in meta.json)
+ID=$1; WT=${2:-/tmp/wt/$ID}; NAME=${3:-$ID}; OUT=/verif/seeded/$NAME; mkdir -p $OUT
+if [ -n "$RECHECK" ]; then
+cd /verif
+git -C /repo apply $OUT/patch.diff || { echo "patch does not apply to /repo"; exit 9; }
+T0=$(date +%s)
+./check $ID > $OUT/check_quick.log 2>&1; RC=$?
+T1=$(date +%s)
+git -C /repo checkout -- .
+git -C /repo status --short | head -3
+echo "[$NAME] re-check exit=$RC in $((T1-T0)) s"; grep -E "VIOLATION|HARNESS-ERROR|INCONCLUSIVE|KNOWN" $OUT/check_quick.log | cut -c1-300 | head -4
+python3 - <<PY
+import json, subprocess
+m=json.load(open("$OUT/meta.json"))
+h=m.setdefault("history",[])
+if not h: h.append({"verif_commit":m.get("verif_commit","(earlier harness version)"),"check_exit":m["check_exit"],"check_seconds":m["check_seconds"]})
+c=subprocess.run(["git","-C","/verif","rev-parse","--short","HEAD"],capture_output=True,text=True).stdout.strip()
+h.append({"verif_commit":c,"check_exit":$RC,"check_seconds":$((T1-T0))})
+m["check_exit"]=$RC; m["check_seconds"]=$((T1-T0)); m["verif_commit"]=c
+json.dump(m,open("$OUT/meta.json","w"),indent=1)
+PY
+exit 0
+fi
 cd $WT || exit 9
 git diff -- happysimulator > $OUT/patch.diff
 [ -s $OUT/patch.diff ] || { echo "no source change in $WT"; exit 9; }
 cp _seeded/demo.py $OUT/demo.py 2>/dev/null; cp _seeded/notes.md $OUT/notes.md 2>/dev/null
 /venv/bin/python _seeded/demo.py > $OUT/demo_with.txt 2>&1; DW=$?
-git stash -q -- happysimulator
+git apply -R $OUT/patch.diff   # (not git stash: the stash is shared between worktrees)
 /venv/bin/python _seeded/demo.py > $OUT/demo_without.txt 2>&1; DWO=$?
-git stash pop -q
+git apply $OUT/patch.diff
 X=$(mktemp /tmp/junit.XXXX.xml)
 /venv/bin/python -m pytest -q -p no:cacheprovider --timeout=900 --junitxml=$X >/dev/null 2>&1
 SUITE=$(python3 -c "
@@ -26,10 +48,12 @@ T0=$(date +%s)
 T1=$(date +%s)
 git -C /repo checkout -- .
 git -C /repo status --short | head -3
-echo "[$ID] check exit=$RC in $((T1-T0)) s"; grep -E "VIOLATION|HARNESS-ERROR|INCONCLUSIVE|KNOWN" $OUT/check_quick.log | cut -c1-300 | head -6
+echo "[$NAME] check exit=$RC in $((T1-T0)) s"; grep -E "VIOLATION|HARNESS-ERROR|INCONCLUSIVE|KNOWN" $OUT/check_quick.log | cut -c1-300 | head -6
 python3 - <<PY
-import json
-json.dump({"property":"$ID","demo_exit_with_change":$DW,"demo_exit_without_change":$DWO,"suite_with_change":"$SUITE",
+import json, subprocess, os
+c=subprocess.run(["git","-C","/verif","rev-parse","--short","HEAD"],capture_output=True,text=True).stdout.strip()
+notes=open("$OUT/notes.md").read() if os.path.exists("$OUT/notes.md") else ""
+json.dump({"property":"$ID","verif_commit":c,"needs_to_manifest":notes,"demo_exit_with_change":$DW,"demo_exit_without_change":$DWO,"suite_with_change":"$SUITE",
  "check_cmd":"./check $ID --tier quick","check_exit":$RC,"check_seconds":$((T1-T0)),
  "what_i_ran":"tools/try_seeded.sh: demo.py with and without the change in a scratch worktree, the full suite with the change, then git -C /repo apply patch.diff; ./check $ID; git -C /repo checkout -- ."},
  open("$OUT/meta.json","w"),indent=1)
